@@ -347,7 +347,7 @@ def render_main(n):
     return '\n'.join(o) + '\n'
 
 
-NUM_RX = re.compile(r'-?\d+\.\d+(?:e-?\d+)?|-?\d+|NaN|-?inf')
+NUM_RX = re.compile(r'-?\d+(?:\.\d+)?(?:e[-+]?\d+)?|NaN|-?inf')
 
 
 def differs(a, b):
